@@ -18,7 +18,7 @@ def run(tier, seed):
                  'the same model, two constructor calls in a row with unit clauses and propagation in between (cache hits after the values changed, the literal returned as an argument of the next call)', None),
                 ('MC_ReifyImpl', 'MC_ReifyImpl_C2.cfg', 'MC_ReifyImpl_C.cfg',
                  'the same model, four to six arguments: the product encoding of at-most-one with its row / column variables, exactly-one on top of it, repeated and complementary arguments among them', None)],
-        reifyimpl=(['ReifyGen_A1.cfg', 'ReifyGen_B0.cfg', 'ReifyGen_C2.cfg'], ['ReifyGen_A.cfg', 'ReifyGen_B.cfg', 'ReifyGen_C.cfg', 'ReifyGen_C2.cfg']),
+        reifyimpl=(['ReifyGen_A1.cfg', 'ReifyGen_B0.cfg', 'ReifyGen_C2.cfg'], ['ReifyGen_A.cfg', 'ReifyGen_B1.cfg', 'ReifyGen_C.cfg', 'ReifyGen_C2.cfg']),
         cache=(8, 40),
         assumptions=['at most 11 propositional variables per execution (model enumeration)',
                      'for at-most-one / exactly-one every occurrence of a repeated argument counts (the truth table of the RIDDLE operator)'])
